@@ -744,6 +744,16 @@ static void c13_history(vf::Rng& r) {
       }
       if (name.empty()) continue;
       if (!h.verify(name.c_str())) break;
+      // the side document must be untouched by whatever happened to the main one (and vice versa)
+      if ((s & 3) == 3 || name == "doc-swap" || name == "Parse") {
+        JVal sv2;
+        std::string why2;
+        vf::note("read side document");
+        if (!su::read_node(static_cast<const su::TrackNode&>(side.doc), sv2, why2) || !jm::equal(sv2, side.model)) {
+          vf::violation("side-document-changed-after:" + name, "side document differs from its model: " + jm::first_diff(sv2, side.model) + " trace: " + h.tail());
+          break;
+        }
+      }
       // all deep copies still hold their snapshot
       for (size_t i = 0; i < copies.size(); i++) {
         c13_copy_indep.add();
